@@ -1186,3 +1186,60 @@ def results_saved_before_gate_replay():
     finally:
         cl.APP_ENV, s3.S3Util.put, s3.S3Util.__init__ = saved
     return out
+
+
+def get_downloads_replay(n=5, sample=2):
+    """REAL S3VersionUtil.get against a scripted listing service and transfer manager: 5 versions, every sample-th is
+    requested once with its own VersionId, every subset of failing downloads that leaves a success is skipped without
+    aborting, every surviving row carries ITS OWN version's modification time in the configured timezone"""
+    import itertools
+    from datetime import datetime, timedelta, timezone
+
+    from dateutil import tz
+
+    from elexmodel.handlers.s3 import S3VersionUtil
+
+    class Future:
+        def __init__(self, fail):
+            self.fail = fail
+
+        def result(self):
+            if self.fail:
+                raise RuntimeError("download failed")
+
+    class Manager:
+        def __init__(self, fail_ids):
+            self.fail_ids, self.requested = fail_ids, []
+
+        def download(self, bucket, key, fileobj, extra_args=None, subscribers=None):
+            vid = (extra_args or {}).get("VersionId")
+            self.requested.append(vid)
+            fileobj.write(f"geographic_unit_fips,dem,gop,total\n{vid},1,2,3\n".encode())
+            return Future(vid in self.fail_ids)
+
+    T0 = datetime(2024, 11, 5, 20, 0, tzinfo=timezone.utc)
+    times = [T0 - timedelta(minutes=10 * i) for i in range(n)]
+    chosen = list(range(n))[::sample]
+    out = {"exc": None, "ok": True, "failures": []}
+    for k in range(0, len(chosen)):
+        for fs in itertools.combinations(chosen, k):
+            u = S3VersionUtil.__new__(S3VersionUtil)
+            u.bucket_name, u.start_date, u.end_date, u.tz = "b", None, None, "America/New_York"
+            u.s3_client = _FakeVersionClient(times, [2])
+            u.manager = Manager({f"v{i}" for i in fs})
+            try:
+                df = u.get("p", sample=sample)
+            except Exception as e:  # noqa
+                out["ok"] = False
+                out["failures"].append({"failing": list(fs), "exc": f"{type(e).__name__}: {e}"})
+                continue
+            good = [i for i in chosen if i not in fs]
+            ok = u.manager.requested == [f"v{i}" for i in chosen] and df is not None and list(df["geographic_unit_fips"]) == [f"v{i}" for i in good]
+            if ok:
+                for i, ts in zip(good, df["last_modified"]):
+                    ok = ok and ts == pd.to_datetime(times[i]).astimezone(tz=tz.gettz("America/New_York"))
+            if not ok:
+                out["ok"] = False
+                out["failures"].append({"failing": list(fs), "requested": u.manager.requested, "rows": None if df is None else list(df["geographic_unit_fips"]), "stamps": None if df is None else [str(x) for x in df["last_modified"]]})
+    out["failures"] = out["failures"][:3]
+    return out
